@@ -23,6 +23,14 @@ CLAIMED = {
             "senders/weak arguments after the harness drops them.",
             "Trusted: TLC, the World harness in vf/props/c14.py, CPython refcounting for weak-argument death.",
             "DESIGN.md §4 C14"),
+    "C04": ("TLA+ reference terminal (Terminal.tla, checked for well-formedness by TLC in TerminalMC.tla); TLC trace validation "
+            "(RawDisplayTrace.tla) interprets the tokenised bytes written by the real raw_display.Screen and compares the model screen with "
+            "the canvas at every frame; HtmlTrace.tla for the HTML back-end",
+            "Every byte sequence the real Screen.draw_screen writes for generated frame histories (draw / clear / resize; exhaustive bottom rows "
+            "for the insert trick; 60 configurations of depth x back_color_erase x encoding x bright-is-bold) is executed by the TLA+ terminal "
+            "model in TLC, which decides cell text, attributes, cursor, insert-mode and never-scrolls at each frame.",
+            "Trusted: TLC, Terminal.tla semantics (DESIGN.md App. E), vf/term.py tokeniser/projection, the palette expectation table.",
+            "DESIGN.md §4 C04"),
 }
 
 NOT_APPLICABLE = {}
